@@ -20,6 +20,7 @@ pub struct Norm {
     pub index_recv: Vec<String>,
     pub copied_to_map: bool,
     pub opaque_into: bool,
+    pub option_combinators: bool,
     pub collect_as_set: Vec<String>,
     pub acc_type: Option<String>,
     pub extend_with: Option<Vec<(String, String)>>,
@@ -352,6 +353,7 @@ impl Norm {
             index_recv: strs("index_recv"),
             copied_to_map: req["copied_to_map"].as_bool().unwrap_or(false),
             opaque_into: req["opaque_into"].as_bool().unwrap_or(false),
+            option_combinators: req["option_combinators"].as_bool().unwrap_or(false),
             collect_as_set: strs("collect_as_set"),
             acc_type: req["acc_type"].as_str().map(|x| x.to_string()),
             extend_with: req["extend_with"].as_array().map(|a| a.iter().filter_map(|x| x.as_str()).filter_map(|x| x.split_once(':')).map(|(a, b)| (a.to_string(), b.to_string())).collect()),
@@ -1510,6 +1512,31 @@ impl VisitMut for Norm {
                                 *e = ne;
                                 self.log("N7d-option-map-unwrap_or", sp);
                             }
+                        }
+                    }
+                    "map_or" if mc.args.len() == 2 && self.option_combinators && matches!(&mc.args[1], Expr::Closure(c) if c.inputs.len() == 1 && !body_has_return(&c.body)) => {
+                        // N7j (option option_combinators=1): OPT.map_or(D, |p| B) => { let d = D; match OPT { Some(p) => B, None => d } } (D is evaluated first, as in std)
+                        if let Expr::Closure(c) = &mc.args[1] {
+                            let pat = match c.inputs[0].clone() { Pat::Type(pt) => *pt.pat, p => p };
+                            let body = &c.body;
+                            let recv = &mc.receiver;
+                            let d = &mc.args[0];
+                            let dd = Ident::new("__hq_mo_d", Span::call_site());
+                            let ne: Expr = parse_quote!({ let #dd = #d; match #recv { Some(#pat) => #body, None => #dd } });
+                            *e = ne;
+                            self.log("N7j-option-map_or", sp);
+                        }
+                    }
+                    "filter" if mc.args.len() == 1 && self.option_combinators && matches!(&mc.args[0], Expr::Closure(c) if c.inputs.len() == 1 && !body_has_return(&c.body)) => {
+                        // N7k (option option_combinators=1): OPT.filter(|p| B) => match OPT { Some(x) => { let p = &x; if B { Some(x) } else { None } } None => None }
+                        if let Expr::Closure(c) = &mc.args[0] {
+                            let pat = match c.inputs[0].clone() { Pat::Type(pt) => *pt.pat, p => p };
+                            let body = &c.body;
+                            let recv = &mc.receiver;
+                            let x = Ident::new("__hq_of_x", Span::call_site());
+                            let ne: Expr = parse_quote!(match #recv { Some(#x) => { let #pat = &#x; if #body { Some(#x) } else { None } } None => None });
+                            *e = ne;
+                            self.log("N7k-option-filter", sp);
                         }
                     }
                     "then_some" if mc.args.len() == 1 => {
